@@ -364,6 +364,10 @@ Proof.
 Qed.
 
 (* ------------------------------------------------------------ phi, merge *)
+(* Soundness of the equality test by which Bindings.Merge / returnBinding skip
+   a phi: values judged equal ARE equal (same value number and type, or same
+   constant).  This is the model's counterpart of Select.Equal / Value.Equal;
+   see the comment above [merge] in Lower.v. *)
 Lemma opnd_eqb_eq a b : opnd_eqb a b = true -> a = b.
 Proof.
   destruct a as [i [s1 b1]|cw cv [s1 b1]], b as [j [s2 b2]|dw dv [s2 b2]]; simpl; try discriminate;
